@@ -65,6 +65,8 @@ Step(prev, rec) ==
          /\ Clause("load_loses_no_arrived_report",
                    (rec.res = "ok" /\ rec.phase = "initialized" /\ SameEpoch(rec.cpost, rec.snap))
                       => rec.cpost.mver >= rec.max_arrived_mver)
+         \* a load ends in the epoch of the snapshot it took, whatever was buffered meanwhile
+         /\ Clause("load_ends_in_the_epoch_of_its_snapshot", rec.res = "ok" => SameEpoch(rec.cpost, rec.snap))
          /\ Clause("load_not_older", (rec.phase = "initialized" /\ SameEpoch(rec.cpost, rec.snap))
                                         => rec.cpost.mver >= rec.snap.mver)
          /\ Sane(rec)
